@@ -37,6 +37,9 @@ BASES = {
                                 parent_src="@spec_class\nclass Parent:\n    item: int\n    items: List[int]\n"),
     "collision_two_levels": base([("x", "none")], inh=[("item", "none"), ("items", "seq")],
                                  parent_src="@spec_class\nclass GrandParent:\n    items: List[int]\n\n@spec_class\nclass Parent(GrandParent):\n    item: int\n"),
+    "collision_two_collections": base([("children", "seq"), ("childs", "map"), ("xs", "seq")]),
+    "collision_inherited_collection": base([("childs", "map")], inh=[("children", "seq")],
+                                           parent_src="@spec_class\nclass Parent:\n    children: List[int]\n"),
     "inherits": base([("y", "none")], body=["y"], inh=[("x", "none"), ("zs", "seq")],
                      parent_src="@spec_class\nclass Parent:\n    x: int = 0\n    zs: List[int] = []\n"),
     "private_in_attrs": base([("x", "none")], body=["x"], o=opts(attrs=["_secret"])),
